@@ -332,7 +332,9 @@ def rule_r5(chk, db, roles):
         if t["callee"].get("trait") == roles.Operation and short(callee_def(t)) == "call":
             f = guards.dominating_facts(body, bi)
             prep_s3 = any(x[0] == "enum" and _is_prepare(x[1]) and x[2] == frozenset(["S3"]) for x in f)
-            prep_ok = any(x[0] == "enum" and "Result<s3s::ops::Prepare" in x[1] and x[2] == frozenset(["Ok"]) for x in f)
+            # `match prepare().await { Ok(p) => .. }` or `prepare().await.map_err(..)?`
+            prep_ok = any(x[0] == "enum" and "Result<s3s::ops::Prepare" in x[1] and x[2] == frozenset(["Ok"]) for x in f) or \
+                any(x[0] == "enum" and "ControlFlow<" in x[1] and x[1].rstrip(">").endswith("s3s::ops::Prepare") and x[2] == frozenset(["Continue"]) for x in f)
             chk.verdict(prep_s3 and prep_ok, "R5", "op-call-after-prepare", body.loc(bi), "Operation::call is reachable without prepare() having returned Ok(Prepare::S3)")
     # custom route
     rr = db.calls_matching(lambda t: t["callee"].get("trait") == roles.S3Route and short(callee_def(t)) == "call", "S3Route")
